@@ -101,13 +101,17 @@ func applyUnifiedDiff(dir, diff string) (map[string][]byte, string) {
 			continue
 		}
 		name := strings.TrimPrefix(strings.TrimPrefix(lines[i], "+++ "), "b/")
+		isNew := i > 0 && strings.HasPrefix(lines[i-1], "--- /dev/null")
 		i++
 		path := filepath.Join(dir, name)
-		b, err := os.ReadFile(path)
-		if err != nil {
-			return nil, "file missing: " + name
+		var src []string
+		if !isNew {
+			b, err := os.ReadFile(path)
+			if err != nil {
+				return nil, "file missing: " + name
+			}
+			src = strings.Split(string(b), "\n")
 		}
-		src := strings.Split(string(b), "\n")
 		var out []string
 		pos := 0 // next unread line of src
 		for i < len(lines) && strings.HasPrefix(lines[i], "@@") {
@@ -120,6 +124,9 @@ func applyUnifiedDiff(dir, diff string) (map[string][]byte, string) {
 				}
 			}
 			i++
+			if isNew || oldStart == 0 {
+				oldStart = 1 // "@@ -0,0 +1,n @@": a file that did not exist
+			}
 			if oldStart-1 < pos || oldStart-1 > len(src) {
 				return nil, "hunk out of order in " + name
 			}
